@@ -195,10 +195,8 @@ func createDefault(sch Node) datanode.DataNode {
 		return datanode.CreateDataNode(v.Name(), nil, []string{val})
 	}
 
-	var children []datanode.DataNode
-	for _, ch := range sch.DefaultChildren() {
-		children = append(children, createDefault(ch))
-	}
-
-	return datanode.CreateDataNode(sch.Name(), children, nil)
+	// A missing non-presence container is an empty container decorated in
+	// its own right: its defaults are then selected like anywhere else,
+	// in particular a choice inside it contributes its default case only.
+	return AddDefaults(sch, datanode.CreateDataNode(sch.Name(), nil, nil))
 }
